@@ -38,6 +38,10 @@ class Connection:
     if self.is_connected():
       raise gfapy.RuntimeError(
         "Line {} is already connected to a GFA instance".format(self))
+    if gfa.version is None and not self.virtual and \
+        self.record_type in ["S", "E", "F", "G", "U", "O"]:
+      # (as in add_line) the line decides the version of the Gfa
+      return gfa.add_line(self)
     # (as in add_line) a line of the other version cannot be connected
     if (gfa.version == "gfa1" and \
           self.__class__ in gfapy.Lines.GFA2Specific) or \
